@@ -100,3 +100,9 @@ Proof.
   revert n; induction l as [|h t IH]; intros [|n]; simpl; auto.
   destruct i; auto.
 Qed.
+
+Lemma firstn_In' {A} (l : list A) n x : In x (firstn n l) -> In x l.
+Proof. revert n; induction l as [|h t IH]; intros [|n] H; cbn in *; auto; try contradiction. destruct H; [left; auto|right; eauto]. Qed.
+
+Lemma skipn_In' {A} (l : list A) n x : In x (skipn n l) -> In x l.
+Proof. revert n; induction l as [|h t IH]; intros [|n] H; cbn in *; auto. right; eauto. Qed.
